@@ -33,7 +33,7 @@ variable {α : Type} [Add α] [Sub α] [Mul α] [Div α] [Neg α] [LT α] [LE α
     chain of such effects, nested to any depth) returns as many frames as it was given; hence the component
     record of the whole-system model satisfies `Comps.LenPres`, the only hypothesis C02's theorems make. -/
 theorem C01_real_components_length_preserving (fuel n : Nat) :
-    (sysComps fuel n : Comps α (SysSnd α) (SysFx α n) Unit).LenPres
+    (sysComps fuel n : Comps α (SysSnd α) (SysFx α n) (SysSpatial α)).LenPres
       ∧ (∀ (s : StaticSound α) (len : Nat) (dt : α) (info : Info α) (r : StaticSound α × List (Frame α)),
             s.process fuel len dt info = .ok r → r.2.length = len)
       ∧ (∀ (e : FxN α n) (xs : List (Frame α)) (dt : α) (info : Info α) (r : FxN α n × List (Frame α)),
@@ -47,7 +47,7 @@ inductive System.Reach {n : Nat} : System α n → Prop
   | new (fuel ibs sr : Nat) (hibs : 1 ≤ ibs) (v : Value α α) (fx : List (SysFx α n)) :
       System.Reach (System.new fuel ibs sr v fx)
   /-- a device callback (`on_start_processing` + `process`), whatever the components did in it -/
-  | callback (s : System α n) (frames ch : Nat) (hch : 1 ≤ ch) (r' : Renderer α (SysSnd α) (SysFx α n) Unit (SysEnv α))
+  | callback (s : System α n) (frames ch : Nat) (hch : 1 ≤ ch) (r' : Renderer α (SysSnd α) (SysFx α n) (SysSpatial α) (SysEnv α))
       (samples : List α) (h : System.Reach s)
       (hp : (s.r.onStart s.C s.V).process s.C s.V frames ch = .ok (r', samples)) :
       System.Reach { s with r := r' }
@@ -56,6 +56,10 @@ inductive System.Reach {n : Nat} : System α n → Prop
   | addSubTrack (s : System α n) (parent : Option Nat) (id : Nat) (v : Value α α) (fx : List (SysFx α n))
       (sends : List (Nat × Value α α)) (persist : Bool) (h : System.Reach s) :
       System.Reach (s.addSubTrack parent id v fx sends persist)
+  /-- `add_spatial_sub_track` on the manager or on any (spatial or plain) track handle -/
+  | addSpatialSubTrack (s : System α n) (parent : Option Nat) (id : Nat) (sp : SysSpatial α) (v : Value α α)
+      (fx : List (SysFx α n)) (sends : List (Nat × Value α α)) (persist : Bool) (h : System.Reach s) :
+      System.Reach (s.addSpatialSubTrack parent id sp v fx sends persist)
   | addSendTrack (s : System α n) (id : Nat) (v : Value α α) (fx : List (SysFx α n)) (h : System.Reach s) :
       System.Reach (s.addSendTrack id v fx)
   | play (s s' : System α n) (track : Option Nat) (id : Nat) (d : StaticSoundData α) (h : System.Reach s)
@@ -67,7 +71,7 @@ inductive System.Reach {n : Nat} : System α n → Prop
   /-- any `TrackHandle` method that writes a command slot, pushes a sound or marks the track dropped
       (`set_volume`, `set_send`, `pause`, `resume_at`, `Drop`: they edit the track's data, not its scratch) -/
   | trackOp (s : System α n) (id : Nat)
-      (g : TrkData α (SysSnd α) (SysFx α n) Unit → TrkData α (SysSnd α) (SysFx α n) Unit)
+      (g : TrkData α (SysSnd α) (SysFx α n) (SysSpatial α) → TrkData α (SysSnd α) (SysFx α n) (SysSpatial α))
       (hg : ∀ d, (g d).temp = d.temp) (h : System.Reach s) :
       System.Reach (s.withMixer (Mixer.mapTrack id (Trk.mapData g)))
   | setMainVolume (s : System α n) (v : Value α α) (tw : Tween α) (h : System.Reach s) :
@@ -75,8 +79,8 @@ inductive System.Reach {n : Nat} : System α n → Prop
   /-- any `SendTrackHandle` method (`set_volume`, `Drop`) -/
   | sendOp (s : System α n) (id : Nat) (f : SendTrk α (SysFx α n) → SendTrk α (SysFx α n))
       (hf : ∀ x, (f x).input = x.input) (h : System.Reach s) : System.Reach (s.withMixer (Mixer.mapSend id f))
-  /-- anything that happens to clocks and modulators (`add_clock`, `add_modulator`, every clock / LFO /
-      tweener handle method, handle drops): the mixer's buffers are not involved -/
+  /-- anything that happens to clocks, modulators and listeners (`add_clock`, `add_modulator`, `add_listener`,
+      every clock / LFO / tweener / listener handle method, handle drops): the mixer's buffers are not involved -/
   | envOp (s : System α n) (f : SysEnv α → SysEnv α) (h : System.Reach s) : System.Reach (s.withEnv f)
 
 /-- the operations of the twin are of the admitted forms (the clock / modulator ones are `withEnv`) -/
@@ -84,6 +88,15 @@ theorem System.reach_env_ops {n : Nat} (s : System α n) (h : System.Reach s) :
     (∀ id speed, System.Reach (s.addClock id speed)) ∧ (∀ id c, System.Reach (s.clockCommand id c))
       ∧ (∀ id m, System.Reach (s.addModulator id m)) ∧ (∀ id f, System.Reach (s.modCommand id f)) :=
   ⟨fun _ _ => .envOp s _ h, fun _ _ => .envOp s _ h, fun _ _ => .envOp s _ h, fun _ _ => .envOp s _ h⟩
+
+/-- the listener operations are `withEnv`; the two `SpatialTrackHandle`-only methods are track operations
+    that leave the scratch buffer alone -/
+theorem System.reach_spatial_ops {n : Nat} (s : System α n) (h : System.Reach s) :
+    (∀ id p o, System.Reach (s.addListener id p o)) ∧ (∀ id f, System.Reach (s.listenerCommand id f))
+      ∧ (∀ id v tw, System.Reach (s.setSpatialPosition id v tw))
+      ∧ (∀ id v tw, System.Reach (s.setSpatialStrength id v tw)) :=
+  ⟨fun _ _ _ => .envOp s _ h, fun _ _ => .envOp s _ h,
+   fun id _ _ => .trackOp s id _ (fun _ => rfl) h, fun id _ _ => .trackOp s id _ (fun _ => rfl) h⟩
 
 theorem Renderer.specChunks_ibs {S E P X : Type} (C : Comps α S E P) (V : EnvOps α X) (ch : Nat) (ns : List Nat)
     (r : Renderer α S E P X) : (Renderer.specChunks C V ch r ns).1.ibs = r.ibs := by
@@ -110,7 +123,7 @@ theorem System.callback_spec {n : Nat} (s : System α n) (hs : s.Ok) (frames ch 
   rw [Renderer.specChunks_ibs, hibs0]; exact hs.2
 
 theorem System.callback_ok {n : Nat} (s : System α n) (hs : s.Ok) (frames ch : Nat) (hch : 1 ≤ ch)
-    (r' : Renderer α (SysSnd α) (SysFx α n) Unit (SysEnv α)) (samples : List α)
+    (r' : Renderer α (SysSnd α) (SysFx α n) (SysSpatial α) (SysEnv α)) (samples : List α)
     (hp : (s.r.onStart s.C s.V).process s.C s.V frames ch = .ok (r', samples)) :
     ({ s with r := r' } : System α n).Ok := by
   obtain ⟨h1, _, h3⟩ := System.callback_spec s hs frames ch hch
@@ -128,6 +141,8 @@ theorem C01_system_invariant {n : Nat} (s : System α n) (h : System.Reach s) : 
   | callback s frames ch hch r' samples _ hp ih => exact System.callback_ok s ih frames ch hch r' samples hp
   | changeRate s sr _ ih => exact System.changeRate_ok s sr ih
   | addSubTrack s parent id v fx sends persist _ ih => exact System.addSubTrack_ok s parent id v fx sends persist ih
+  | addSpatialSubTrack s parent id sp v fx sends persist _ ih =>
+    exact System.addSpatialSubTrack_ok s parent id sp v fx sends persist ih
   | addSendTrack s id v fx _ ih => exact System.addSendTrack_ok s id v fx ih
   | play s s' track id d _ hp ih => exact System.play_ok s track id d s' hp ih
   | soundCommand s sid c _ ih => exact System.soundCommand_ok s sid c ih
@@ -165,7 +180,7 @@ theorem Renderer.specChunks_bus {S E P X : Type} (C : Comps α S E P) (V : EnvOp
     buffer size, and the lengths add up to `frames`.  (Frozen sub-trees are asked for nothing:
     `C12_pause_freezes_subtree`.) -/
 theorem C01_system_each_component_once (fuel n : Nat)
-    (r : Renderer α (SysSnd α × List Nat) (SysFx α n × List Nat) Unit (SysEnv α)) (hr : r.Clean)
+    (r : Renderer α (SysSnd α × List Nat) (SysFx α n × List Nat) (SysSpatial α) (SysEnv α)) (hr : r.Clean)
     (hs : Trk.SteadyList r.mixer.subTracks) (hibs : 0 < r.ibs) (frames ch : Nat) :
     Mixer.logs Prod.snd Prod.snd
         (Renderer.processLoop (sysComps fuel n).logged (SysEnv.envOps fuel) ch frames r frames).1.mixer
@@ -203,7 +218,7 @@ theorem flatten_map_singleton {β γ : Type} (g : β → γ) (l : List β) : (l.
     channel each sample is the mean of the clamped left and right bus values; with two or more channels each
     frame is `clamp left, clamp right, 0, …, 0`; and the invariant holds again afterwards. -/
 theorem C01_system_output_wellformed {n : Nat} (s : System ℝ n) (hs : s.Ok) (frames ch : Nat) (hch : 1 ≤ ch) :
-    ∃ (r' : Renderer ℝ (SysSnd ℝ) (SysFx ℝ n) Unit (SysEnv ℝ)) (samples : List ℝ) (bus : List (Frame ℝ)),
+    ∃ (r' : Renderer ℝ (SysSnd ℝ) (SysFx ℝ n) (SysSpatial ℝ) (SysEnv ℝ)) (samples : List ℝ) (bus : List (Frame ℝ)),
       (s.r.onStart s.C s.V).process s.C s.V frames ch = .ok (r', samples)
         ∧ ({ s with r := r' } : System ℝ n).Ok
         ∧ bus.length = frames
@@ -248,7 +263,7 @@ theorem C01_system_output_wellformed {n : Nat} (s : System ℝ n) (hs : s.Ok) (f
 /-- the same for every reachable state: all scenes, all histories -/
 theorem C01_system_output_wellformed_reachable {n : Nat} (s : System ℝ n) (h : System.Reach s) (frames ch : Nat)
     (hch : 1 ≤ ch) :
-    ∃ (r' : Renderer ℝ (SysSnd ℝ) (SysFx ℝ n) Unit (SysEnv ℝ)) (samples : List ℝ),
+    ∃ (r' : Renderer ℝ (SysSnd ℝ) (SysFx ℝ n) (SysSpatial ℝ) (SysEnv ℝ)) (samples : List ℝ),
       (s.r.onStart s.C s.V).process s.C s.V frames ch = .ok (r', samples)
         ∧ System.Reach ({ s with r := r' } : System ℝ n)
         ∧ samples.length = frames * ch ∧ (∀ x ∈ samples, -1 ≤ x ∧ x ≤ 1) := by
@@ -285,7 +300,7 @@ example : ∃ s : System ℝ 1, System.Reach s ∧ s.Ok ∧ s.r.mixer.pendingSub
 
 /-- a clean renderer with a simply playing sub-track that carries a real effect (with its ghost log) exists:
     the hypotheses of `C01_system_each_component_once` are satisfiable -/
-example : ∃ r : Renderer ℝ (SysSnd ℝ × List Nat) (SysFx ℝ 1 × List Nat) Unit (SysEnv ℝ),
+example : ∃ r : Renderer ℝ (SysSnd ℝ × List Nat) (SysFx ℝ 1 × List Nat) (SysSpatial ℝ) (SysEnv ℝ),
     r.Clean ∧ Trk.SteadyList r.mixer.subTracks ∧ 0 < r.ibs ∧ r.mixer.subTracks.length = 1 :=
   ⟨{ dt := 1
      mixer := { (Mixer.newV (.fixed 0) [] 4) with
